@@ -1318,4 +1318,196 @@ Section Inv.
              ++ unfold fsize. rewrite Ffh. subst t. reflexivity.
              ++ unfold ext_cursor. rewrite Fcext, Fpinx. subst t. cbn -[enc_x]. intros _. fold j. fold i. split; [rewrite Hx1; reflexivity|lia].
   Qed.
+
+  (* ---- adfFileWrite ---- *)
+  (* the allocator as an oracle: every answer names blocks the file does not own yet (and not its header); a refusal ends the run *)
+  Fixpoint al_ok (L E : list Z) (al : list (option (Z * Z))) : Prop :=
+    match al with
+    | [] => True
+    | None :: _ => True
+    | Some (x, y) :: r =>
+        let nx := needs_x (len L) in
+        let n := if nx then y else x in
+        fresh L E n /\ (nx = true -> fresh L E x /\ x <> y) /\ al_ok (L ++ [n]) (if nx then E ++ [x] else E) r
+    end.
+
+  Lemma pind_mod s L E : Inv s L E -> cur s <> 0 -> pos s mod bs = (if pind s =? bs then 0 else pind s).
+  Proof.
+    intros I Hc. destruct (normal_facts s L E I Hc) as (_ & _ & Hp & Hpi & _). rewrite Hp.
+    destruct (Z.eqb_spec (pind s) bs) as [He|He].
+    - rewrite He. replace ((ndb s - 1) * bs + bs) with (ndb s * bs + 0) by lia. apply mod_block. lia.
+    - apply mod_block. lia.
+  Qed.
+
+  Lemma repr_nothing s L ct data : 0 <= pos s <= fsize s -> Repr s L ct -> Repr s L (ovw ct (pos s) (firstn (Z.to_nat 0) data)).
+  Proof. intros Hp R. change (firstn (Z.to_nat 0) data) with (@nil Z). rewrite ovw_nil; [exact R|]. destruct R as (Hl & _). lia. Qed.
+
+  Lemma write_loop_ok : forall fuel s data al L E ct, Inv s L E -> Repr s L ct -> mw s = true -> al_ok L E al ->
+    (0 < len data -> len data + pos s mod bs <= Z.of_nat fuel * bs) ->
+    exists s' w al' L' E', write_loop bs ofs nobad fuel s data al = (s', w, al') /\ Inv s' L' E'
+      /\ Repr s' L' (ovw ct (pos s) (firstn (Z.to_nat w) data)) /\ pos s' = pos s + w /\ 0 <= w <= len data /\ mw s' = true /\ mr s' = mr s
+      /\ (w = len data -> al_ok L' E' al') /\ (w < len data -> exists r, al = r ++ None :: al' \/ (al' = [] /\ True)).
+  Proof.
+    induction fuel as [|fuel IH]; intros s data al L E ct I R Hw Hal Hfuel.
+    - assert (Hd0 : len data = 0).
+      { destruct (Z.eq_dec (len data) 0) as [|Hne]; [assumption|]. pose proof (len_nonneg data). specialize (Hfuel ltac:(lia)).
+        pose proof (Z.mod_pos_bound (pos s) bs Hbs). simpl in Hfuel. lia. }
+      exists s, 0, al, L, E. cbn [write_loop]. assert (data = []) as -> by (destruct data; [reflexivity|unfold len in Hd0; simpl in Hd0; lia]).
+      pose proof I as (B & HL & C). assert (Hps : 0 <= pos s <= fsize s) by (destruct C as [(Hz & _ & Hp & _)|(_ & Hnn & Hp & Hpi & Hle & _)]; [lia|nia]).
+      splits; try reflexivity; try assumption; try lia; try (apply repr_nothing; assumption); try (unfold len; simpl; lia); try (intros _; exact Hal).
+    - destruct data as [|b0 data0] eqn:Hdata.
+      { exists s, 0, al, L, E. cbn [write_loop]. pose proof I as (B & HL & C).
+        assert (Hps : 0 <= pos s <= fsize s) by (destruct C as [(Hz & _ & Hp & _)|(_ & Hnn & Hp & Hpi & Hle & _)]; [lia|nia]).
+        splits; try reflexivity; try assumption; try lia; try (apply repr_nothing; assumption); try (unfold len; simpl; lia); try (intros _; exact Hal). }
+      rewrite <- Hdata in *. assert (Hdpos : 0 < len data) by (rewrite Hdata; unfold len; simpl; lia).
+      specialize (Hfuel Hdpos). rewrite Nat2Z.inj_succ in Hfuel.
+      pose proof I as (B & HL & C). pose proof (b_size _ _ _ B) as Hsz0.
+      assert (Hps : 0 <= pos s <= fsize s) by (destruct C as [(Hz & _ & Hp & _)|(_ & Hnn & Hp & Hpi & Hle & _)]; [lia|nia]).
+      pose proof (Z.mod_pos_bound (pos s) bs Hbs) as He.
+      (* the prepared state: what copy_ok needs, or a refusal *)
+      assert (Hprep :
+        (exists al1, (if pos s mod bs =? 0
+                 then if pos s =? fsize s
+                      then let '(okc, sc) := create_next bs ofs s (match al with a :: _ => a | [] => None end) in
+                           if okc then (true, set_pind (set_chg sc false) 0, tl al) else (false, sc, tl al)
+                      else if pind s =? bs
+                           then let '(okn, sn) := read_next bs ofs nobad (if chg s then set_chg (fio_flush bs ofs s) false else s) in
+                                if okn then (true, set_pind sn 0, al) else (false, set_cur sn 0, al)
+                           else (true, set_pind s 0, al)
+                 else (true, s, al)) = (false, s, al1) /\ (al1 = tl al) /\ (al = [] \/ exists r, al = None :: r))
+        \/
+        (exists s1 al1 L1 E1, (if pos s mod bs =? 0
+                 then if pos s =? fsize s
+                      then let '(okc, sc) := create_next bs ofs s (match al with a :: _ => a | [] => None end) in
+                           if okc then (true, set_pind (set_chg sc false) 0, tl al) else (false, sc, tl al)
+                      else if pind s =? bs
+                           then let '(okn, sn) := read_next bs ofs nobad (if chg s then set_chg (fio_flush bs ofs s) false else s) in
+                                if okn then (true, set_pind sn 0, al) else (false, set_cur sn 0, al)
+                           else (true, set_pind s 0, al)
+                 else (true, s, al)) = (true, s1, al1)
+          /\ Base (set_chg s1 true) L1 E1 /\ mw s1 = true /\ mr s1 = mr s /\ cur s1 = nthZ L1 (ndb s1 - 1) /\ 1 <= ndb s1 <= len L1
+          /\ pos s1 = pos s /\ pos s1 = (ndb s1 - 1) * bs + pind s1 /\ pind s1 = pos s mod bs /\ pos s1 <= fsize s1 /\ fsize s1 = fsize s
+          /\ len (d_bytes (cdata s1)) = bs /\ ext_cursor s1 L1 E1 (ndb s1 - 1) /\ (ofs = true -> ndb s1 < len L1 -> d_next (cdata s1) = nthZ L1 (ndb s1))
+          /\ (forall c, 0 < c -> pos s mod bs + c <= bs -> len L1 = size2db (Z.max (fsize s) (pos s + c)) bs)
+          /\ (forall i, 0 <= i < fsize s -> nthZ ct i = byte_at s1 L1 i) /\ al_ok L1 E1 al1 /\ (al1 = al \/ al1 = tl al))).
+      { destruct (Z.eqb_spec (pos s mod bs) 0) as [Hm0|Hm0].
+        - destruct (Z.eqb_spec (pos s) (fsize s)) as [Heof|Hneof].
+          + (* at the end of the file on a block boundary: a new block *)
+            destruct al as [|[[x y]|] al0].
+            * left. exists []. unfold create_next. destruct (ndb s <? MAXDB); [|destruct (ndb s mod MAXDB =? 0)]; (split; [reflexivity|split; [reflexivity|left; reflexivity]]).
+            * right. cbn [al_ok] in Hal. destruct Hal as (Hfn & Hfx & Hal0).
+              destruct (create_next_ok s L E ct x y _ _ _ I R Hw Heof Hm0 eq_refl eq_refl eq_refl Hfn Hfx)
+                as (sc & Hcn & Bsc & Rsc & Lsc & Ccur & Cndb & Cpos & Csz & Cmw & Cmr & Cxc).
+              set (n := if needs_x (len L) then y else x) in *. set (L1 := L ++ [n]) in *. set (E1 := if needs_x (len L) then E ++ [x] else E) in *.
+              rewrite Hcn. exists (set_pind (set_chg sc false) 0), al0, L1, E1.
+              destruct (at_eof_boundary s L E I Heof Hm0) as (Hn0 & Hszb & _).
+              assert (HlL1 : len L1 = len L + 1) by (subst L1; rewrite len_app; unfold len at 2; simpl; lia).
+              splits; try reflexivity; try assumption; cbn; try lia.
+              -- apply (base_frame2 (set_chg sc true)); try reflexivity; [apply (b_hdr _ _ _ Bsc)|apply (b_size _ _ _ Bsc)|exact Bsc].
+              -- congruence.
+              -- rewrite Ccur, Cndb. replace (len L + 1 - 1) with (len L) by lia. subst L1. rewrite nthZ_snoc, Z.eqb_refl. reflexivity.
+              -- unfold fsize in *. cbn. lia.
+              -- unfold ext_cursor in *. cbn. rewrite Cndb. replace (len L + 1 - 1) with (len L) by lia. exact Cxc.
+              -- intros c Hc1 Hc2. rewrite HlL1. symmetry. apply size2db_unique; [lia|]. rewrite Hm0 in Hc2. nia.
+              -- right. reflexivity.
+            * left. exists al0. unfold create_next. destruct (ndb s <? MAXDB); [|destruct (ndb s mod MAXDB =? 0)]; (split; [reflexivity|split; [reflexivity|right; eexists; reflexivity]]).
+          + (* inside the file on a block boundary *)
+            right. assert (Hlt : pos s < fsize s) by lia.
+            assert (Hcz : cur s <> 0) by (destruct C as [(Hz & _)|(Hcu & Hnn & _)]; [lia|]; pose proof (cur_nonzero s L E I ltac:(lia) Hcu ltac:(lia)); lia).
+            destruct (normal_facts s L E I Hcz) as (Hcu & Hnn & Hpp & Hpi & Hle).
+            pose proof (pind_mod s L E I Hcz) as Hpm. rewrite Hm0 in Hpm.
+            destruct (Z.eqb_spec (pind s) bs) as [Hb|Hb].
+            * (* the next block is fetched *)
+              destruct (advance_ok s L E ct I R Hcz Hb Hlt) as (sn & Hrn & I1 & R1 & P1 & C1 & Pi1 & F1 & W1 & M1 & Cn).
+              assert (Hset : (if chg s then set_chg (fio_flush bs ofs s) false else s) = settle s) by (unfold settle; rewrite Hw; reflexivity).
+              rewrite Hset, Hrn. exists (set_pind sn 0), al, L, E.
+              assert (Heq : set_pind sn 0 = set_chg (set_pind sn 0) false) by (apply state_ext; try reflexivity; cbn; exact Cn).
+              rewrite Heq. set (s1 := set_chg (set_pind sn 0) false) in *.
+              destruct (normal_facts s1 L E I1 C1) as (Hcu1 & Hnn1 & Hpp1 & Hpi1 & Hle1).
+              pose proof I1 as (B1 & HL1 & [(_ & Hz1 & _)|(_ & _ & _ & _ & _ & Hlen1 & _ & Hnx1 & Hxc1)]); [contradiction|].
+              assert (Hf1 : fsize s1 = fsize s) by (unfold fsize; rewrite F1; reflexivity).
+              splits; try reflexivity; try assumption; try lia; try congruence.
+              -- apply base_dirty; [exact B1|congruence].
+              -- intros c Hc1 Hc2. rewrite Hm0 in Hc2. rewrite Pi1 in Hpp1. destruct (Z.max_spec (fsize s) (pos s + c)) as [(Hmx & ->)|(Hmx & ->)]; [|rewrite HL1, Hf1; reflexivity].
+                 symmetry. apply size2db_unique; [lia|]. destruct (size2db_spec (fsize s) Hsz0) as [Hs|[Hs _]]; [|lia]. rewrite <- Hf1, <- HL1 in Hs. nia.
+              -- destruct R1 as (_ & Hr1). intros i Hi. apply Hr1. lia.
+              -- left. reflexivity.
+            * (* the buffered block starts here *)
+              assert (Hp0 : pind s = 0) by (destruct (pind s =? bs); lia).
+              assert (Heq : set_pind s 0 = s) by (apply state_ext; try reflexivity; cbn; congruence).
+              rewrite Heq. exists s, al, L, E.
+              destruct C as [(_ & Hz1 & _)|(_ & _ & _ & _ & _ & Hlen1 & _ & Hnx1 & Hxc1)]; [contradiction|].
+              splits; try reflexivity; try assumption; try lia.
+              -- apply base_dirty; assumption.
+              -- intros c Hc1 Hc2. rewrite Hm0 in Hc2. destruct (Z.max_spec (fsize s) (pos s + c)) as [(Hmx & ->)|(Hmx & ->)]; [|exact HL].
+                 symmetry. apply size2db_unique; [lia|]. destruct (size2db_spec (fsize s) Hsz0) as [Hs|[Hs _]]; [|lia]. rewrite <- HL in Hs. nia.
+              -- destruct R as (_ & Hr). exact Hr.
+              -- left. reflexivity.
+        - (* inside a block *)
+          right. exists s, al, L, E.
+          assert (Hcz : cur s <> 0) by (destruct C as [(Hz & _ & Hp0 & _)|(Hcu & Hnn & _)]; [rewrite Hp0, Z.mod_0_l in Hm0 by lia; contradiction|]; pose proof (cur_nonzero s L E I ltac:(lia) Hcu ltac:(lia)); lia).
+          destruct (normal_facts s L E I Hcz) as (Hcu & Hnn & Hpp & Hpi & Hle).
+          pose proof (pind_mod s L E I Hcz) as Hpm. destruct (Z.eqb_spec (pind s) bs) as [Hb|Hb]; [contradiction|].
+          destruct C as [(_ & Hz1 & _)|(_ & _ & _ & _ & _ & Hlen1 & _ & Hnx1 & Hxc1)]; [contradiction|].
+          splits; try reflexivity; try assumption; try lia.
+          -- apply base_dirty; assumption.
+          -- intros c Hc1 Hc2. rewrite Hpm in Hc2. destruct (Z.max_spec (fsize s) (pos s + c)) as [(Hmx & ->)|(Hmx & ->)]; [|exact HL].
+             symmetry. apply size2db_unique; [lia|]. destruct (size2db_spec (fsize s) Hsz0) as [Hs|[Hs Hs2]]; [|lia]. rewrite <- HL in Hs.
+             assert (Hq : ndb s * bs <= len L * bs) by (apply Z.mul_le_mono_nonneg_r; lia). clear Hm0 He Hpm. lia.
+          -- destruct R as (_ & Hr). exact Hr.
+          -- left. reflexivity. }
+      cbn [write_loop]. rewrite Hdata. rewrite <- Hdata.
+      destruct Hprep as [(al1 & Hpr & Hal1 & Hwhy)|(s1 & al1 & L1 & E1 & Hpr & B1 & W1 & M1 & Hcu1 & Hn1 & P1 & Hpp1 & Hpi1 & Hle1 & Hf1 & Hlen1 & Hxc1 & Hnx1 & HL1 & Hr1 & Hal1 & Hwhy)].
+      + (* refused: nothing was written, the state is unchanged *)
+        rewrite Hpr. cbn [negb]. exists s, 0, al1, L, E.
+        splits; try reflexivity; try assumption; try lia.
+        * apply repr_nothing; assumption.
+        * intros _. subst al1. destruct Hwhy as [->|(r & ->)]; [exists []; right; split; [reflexivity|trivial]|exists []; left; reflexivity].
+      + rewrite Hpr. cbn [negb].
+        set (c := Z.min (Z.of_nat (length data)) (bs - pind s1)).
+        assert (Hc : 0 < c <= len data /\ pind s1 + c <= bs) by (subst c; unfold len in *; rewrite Hpi1; lia).
+        set (chunk := firstn (Z.to_nat c) data).
+        assert (Hlch : len chunk = c) by (subst chunk; rewrite len_firstn_le by lia; lia).
+        destruct (copy_ok s1 L1 E1 ct chunk B1 W1 Hcu1 Hn1 Hpp1 ltac:(rewrite Hpi1; lia) ltac:(rewrite Hlch; lia) ltac:(rewrite Hlch; lia) Hle1 Hlen1 Hxc1 Hnx1)
+          as (I2 & R2 & P2 & F2 & W2 & M2 & Cg2 & Cz2 & Pi2).
+        { rewrite Hlch, Hf1, P1. apply HL1; [lia|rewrite <- Hpi1; lia]. }
+        { destruct R as (Hlct & _). rewrite Hf1. exact Hlct. }
+        { rewrite Hf1. exact Hr1. }
+        set (s2 := copy_step s1 chunk) in *.
+        assert (Hs2eq : set_fh (set_chg (set_pind (set_pos (set_cdata s1 (set_d_bytes (cdata s1) (ovw (d_bytes (cdata s1)) (pind s1) chunk))) (pos s1 + c)) (pind s1 + c)) true)
+                          (set_h_size (fh s1) (Z.max (fsize s1) (pos s1 + c))) = s2) by (subst s2; unfold copy_step; rewrite Hlch; reflexivity).
+        fold c. fold chunk. rewrite Hs2eq.
+        destruct (IH s2 (skipn (Z.to_nat c) data) al1 L1 E1 (ovw ct (pos s1) chunk) I2 R2 ltac:(congruence) Hal1) as (s3 & w & al3 & L3 & E3 & Hwl & I3 & R3 & P3 & Hw3 & W3 & M3 & Hal3 & Hwhy3).
+        { intros Hrest. assert (Hlr : len (skipn (Z.to_nat c) data) = len data - c) by (unfold len; rewrite skipn_length; unfold len in Hc; lia).
+          rewrite Hlr in *. assert (Hcfull : c = bs - pind s1) by (subst c; unfold len in *; lia).
+          rewrite P2, Hlch, P1. assert (Hmod0 : (pos s + c) mod bs = 0).
+          { rewrite P1 in Hpp1. rewrite Hpp1, Hcfull. replace ((ndb s1 - 1) * bs + pind s1 + (bs - pind s1)) with (ndb s1 * bs + 0) by lia. apply mod_block. lia. }
+          rewrite Hmod0. rewrite Hpi1 in Hcfull. lia. }
+        rewrite Hwl. exists s3, (c + w), al3, L3, E3.
+        assert (Hlr : len (skipn (Z.to_nat c) data) = len data - c) by (unfold len; rewrite skipn_length; unfold len in Hc; lia).
+        splits; try reflexivity; try assumption; try lia.
+        * (* the bytes stored so far *)
+          rewrite P2, Hlch in R3. rewrite P1 in R3. replace (pos s + c) with (pos s + len chunk) in R3 by lia.
+          rewrite ovw_ovw in R3 by (destruct R as (Hlct & _); lia). subst chunk. rewrite firstn_app_skipn in R3.
+          replace (Z.to_nat (c + w)) with (Z.to_nat c + Z.to_nat w)%nat by lia. exact R3.
+        * congruence.
+        * intros Hfull. apply Hal3. lia.
+        * intros Hshort. destruct (Hwhy3 ltac:(lia)) as (r & [Hx|(Hx & _)]).
+          -- destruct Hwhy as [->| ->]; [exists r; left; exact Hx|]. destruct al as [|a al0]; [cbn in Hx; destruct r; discriminate|]. exists (a :: r). left. cbn in Hx. rewrite Hx. reflexivity.
+          -- exists []. right. split; [exact Hx|trivial].
+  Qed.
+
+  Theorem fio_write_ok s L E ct data al : Inv s L E -> Repr s L ct -> mw s = true -> al_ok L E al ->
+    exists s' w al' L' E', fio_write bs ofs nobad s data al = (s', w, al') /\ Inv s' L' E'
+      /\ Repr s' L' (ovw ct (pos s) (firstn (Z.to_nat w) data)) /\ pos s' = pos s + w /\ 0 <= w <= len data /\ mw s' = true /\ mr s' = mr s
+      /\ (w = len data -> al_ok L' E' al') /\ (w < len data -> exists r, al = r ++ None :: al' \/ (al' = [] /\ True)).
+  Proof.
+    intros I R Hw Hal. unfold fio_write. rewrite Hw. cbn [negb].
+    apply (write_loop_ok _ s data al L E ct I R Hw Hal).
+    intros Hd. fold (len data). pose proof (Z.mod_pos_bound (pos s) bs Hbs). pose proof (Z.div_mod (len data) bs ltac:(lia)).
+    pose proof (Z.mod_pos_bound (len data) bs Hbs). pose proof (Z.div_pos (len data) bs ltac:(lia) Hbs). rewrite Z2Nat.id by lia. nia.
+  Qed.
+
+  Theorem fio_write_readonly s data al : mw s = false -> fio_write bs ofs nobad s data al = (s, 0, al).
+  Proof. intros Hw. unfold fio_write. rewrite Hw. reflexivity. Qed.
 End Inv.
